@@ -356,6 +356,19 @@ example : dedupe exVarSig
 example : wellCalled (exVarSig 0) ⟨[exWeb, exDb], [(['z'], .int 1)]⟩ = true ∧
     wellCalled (exVarSig 0) ⟨[exWeb], [(['x'], exDb)]⟩ = false ∧
     wellCalled (.plain [⟨['x'], none⟩]) ⟨[exWeb, exDb], []⟩ = false := by decide
+/-- compound (unhashable) arguments: `build(c, targets)` invoked with two equal lists built separately
+    is ONE invocation, with a different list another; likewise as an extra positional of `*rest` and as a
+    `**kw` entry -/
+def exList12 : AVal := .compound 0 [1, 2]
+def exList13 : AVal := .compound 0 [1, 3]
+example : dedupe (fun _ => .plain [⟨['t'], none⟩])
+    [⟨0, 0, 0, ⟨[], [(['t'], exList12)]⟩⟩, ⟨0, 0, 0, ⟨[exList12], []⟩⟩, ⟨0, 0, 0, ⟨[exList13], []⟩⟩,
+     ⟨0, 0, 0, ⟨[], [(['t'], .compound 0 [1, 2])]⟩⟩] =
+    [⟨0, 0, 0, ⟨[], [(['t'], exList12)]⟩⟩, ⟨0, 0, 0, ⟨[exList13], []⟩⟩] := by decide
+example : dedupe exVarSig
+    [⟨0, 0, 0, ⟨[exWeb, exList12], [(['z'], exList13)]⟩⟩, ⟨0, 0, 0, ⟨[exWeb, exList12], [(['z'], exList13)]⟩⟩,
+     ⟨0, 0, 0, ⟨[exWeb, exList12], [(['z'], exList12)]⟩⟩] =
+    [⟨0, 0, 0, ⟨[exWeb, exList12], [(['z'], exList13)]⟩⟩, ⟨0, 0, 0, ⟨[exWeb, exList12], [(['z'], exList12)]⟩⟩] := by decide
 /-- the hypotheses of `effective_args_dedupe` are satisfiable by a list with real duplicates under
     different spellings -/
 example :
